@@ -200,6 +200,12 @@ def any_decls(tier='quick') -> List[Decl]:
                       props=['C01', 'C03', 'C05', 'C07', 'C13']))
         out.append(mk('any_%s_san_nov' % nm, 'any', ty, sanitizers=[Sanitizer('with', sp)], aux=[spn],
                       derives=['Debug', 'Clone', 'Copy', 'PartialEq', 'AsRef', 'Deref', 'Into', 'From'], props=['C01', 'C03', 'C05', 'C13']))
+    # a lifetime-generic inner type
+    pc = Custom(name='pred_cow', src='pred_cow', spec='SPEC_PRED_COW')
+    sc_ = Custom(name='san_cow', src='san_cow', spec='SPEC_SAN_COW')
+    out.append(mk('any_cow_san_pred', 'any', "::std::borrow::Cow<'a, str>", generics="<'a>", generic_args="<'a>", sanitizers=[Sanitizer('with', sc_)],
+                  validators=[Validator('predicate', fn=pc)], aux=['cow_fns'], derives=['Debug', 'AsRef', 'Deref', 'Into', 'TryFrom'],
+                  props=['C01', 'C03', 'C05', 'C07', 'C13']))
     # generic Vec<T>
     pv, pvn = aux.custom('pred', 'vec')
     sv, svn = aux.custom('san', 'vec')
